@@ -13,6 +13,14 @@ import (
 type CombineResult struct {
 	BindingContexts []bctx.BindingContext
 	MonitorIDs      []string
+	// ForbidFailure is true if at least one of the merged tasks does not allow failure:
+	// the combined task must be retried on error even if the first task allows failure.
+	ForbidFailure bool
+}
+
+// allowFailureAccessor is implemented by task metadata that knows if the task is allowed to fail.
+type allowFailureAccessor interface {
+	GetAllowFailure() bool
 }
 
 // combineBindingContextForHook combines binding contexts from a sequence of task with similar
@@ -84,6 +92,9 @@ func (op *ShellOperator) combineBindingContextForHook(tqs *queue.TaskQueueSet, q
 		tskMonitorIDs := tsk.GetMetadata().(MonitorIDAccessor).GetMonitorIDs()
 		if len(tskMonitorIDs) > 0 {
 			monitorIDs = append(monitorIDs, tskMonitorIDs...)
+		}
+		if af, ok := tsk.GetMetadata().(allowFailureAccessor); ok && !af.GetAllowFailure() {
+			res.ForbidFailure = true
 		}
 		tasksFilter[tsk.GetId()] = false
 	}
